@@ -62,6 +62,9 @@ def make_doc(n, parents, crits, abstract_bits, nest, children_first, other_names
                                    PType("TAG_T", "String", StrEnc(Fixed(16), "US-ASCII"))]
     prs = list(header_params(names)) + [Param("SEL", "SEL_T"), Param("CSEL", "CSEL_T"), Param("XSEL", "XSEL_T"), Param("P6", "P4_T"), Param("TAG", "TAG_T")] + [Param(f"M{i}", "M_T") for i in range(1, n)] + [Param("NM", "M_T"), Param("TAILM", "M_T"), Param("LM", "M_T"), Param("RM", "M_T")]
     cnames = [root_name] + [f"C{i}" for i in range(1, n)]
+    if other_names and n >= 2:
+        # the last container (a leaf: nothing is based on it) carries a name that is falsy or looks like a constant when taken for one
+        cnames[n - 1] = ("", "0", "None", " ", "False")[(3 * n + nest + sum(parents) + (1 if children_first else 0)) % 5]
     conts = []
     for i in range(n):
         if i == 0:
